@@ -41,14 +41,15 @@ CODE = {0: "ok", 1: "unsafe-delete", 2: "dup", 3: "lost", 4: "foreign-or-altered
 
 
 def cfg_text(nfiles, minfiles, maxbatch, maxkills, maxcycles, emit, invs, view, as_written=False,
-             modes=("none", "tags", "shrink"), tag_union=True):
+             modes=("none", "tags", "shrink", "clones", "clones_tags"), tag_union=True, plain_distinct=False):
     # as_written: the code before the fix commits e2ad6be / db8e9fa (negative control)
     # tag_union=False: dedup on the newest tagged input's arc:tags only (negative control)
+    # plain_distinct=True: the metadata-free merge is SELECT DISTINCT * (negative control)
     return ("SPECIFICATION Spec\nCONSTANTS\n  NFiles = %d\n  MinFiles = %d\n  MaxBatch = %d\n  MaxKills = %d\n"
-            "  MaxCycles = %d\n  DedupModes = {%s}\n  TagUnion = %s\n  RecoverOnCrash = %s\n  ListAllEntries = %s\n  Emit = %s\n"
+            "  MaxCycles = %d\n  DedupModes = {%s}\n  TagUnion = %s\n  PlainDistinct = %s\n  RecoverOnCrash = %s\n  ListAllEntries = %s\n  Emit = %s\n"
             "INVARIANTS %s\n%sCHECK_DEADLOCK FALSE\n"
             % (nfiles, minfiles, maxbatch, maxkills, maxcycles, ", ".join('"%s"' % m for m in modes),
-               "TRUE" if tag_union else "FALSE", "FALSE" if as_written else "TRUE",
+               "TRUE" if tag_union else "FALSE", "TRUE" if plain_distinct else "FALSE", "FALSE" if as_written else "TRUE",
                "TRUE" if as_written else "FALSE",
                "TRUE" if emit else "FALSE", invs, "VIEW view\n" if view else ""))
 
@@ -72,9 +73,9 @@ def run(ctx):
     # initial states of the same run. The generation run has no VIEW (the schedule history is part of the state), so it
     # visits a superset of the plain model's states and checks the same invariants: it IS the exhaustive check.
     if quick:
-        bounds = [("small", 4, 2, 4, 2, 3, 60), ("tiny", 2, 2, 4, 2, 3, 30), ("three", 3, 2, 2, 2, 3, 30)]
+        bounds = [("small", 4, 2, 4, 2, 3, 80), ("tiny", 2, 2, 4, 2, 3, 30), ("three", 3, 2, 2, 2, 3, 30)]
     else:
-        bounds = [("small", 4, 2, 4, 2, 3, 160), ("tiny", 2, 2, 4, 2, 3, 60), ("three", 3, 2, 2, 2, 3, 70),
+        bounds = [("small", 4, 2, 4, 2, 3, 220), ("tiny", 2, 2, 4, 2, 3, 60), ("three", 3, 2, 2, 2, 3, 70),
                   ("five", 5, 3, 5, 2, 3, 100), ("large", 6, 3, 4, 3, 3, 130)]
     mc_notes = []
     fired = {}
@@ -84,13 +85,13 @@ def run(ctx):
         name = "Gen_%s.cfg" % label
         gen = ctx.tlc("compaction", "Compaction", name, coverage=True, timeout=1500, workers=4,
                       files={name: cfg_text(nf, mf, mb, mk, mcyc, True, "TypeOK DeleteSafeExceptOpen EmitInv", False,
-                                             modes=("none", "tags", "shrink") if nf >= 4 else ("none", "tags"))})
+                                             modes=("none", "tags", "shrink", "clones", "clones_tags") if nf >= 4 else ("none", "tags"))})
         if not gen.traces:
             raise InfraError("generator %s emitted nothing" % name)
         for a, v in gen.coverage.items():
             fired[a] = fired.get(a, 0) + v[0]
         mc_notes.append({"cfg": name, "bounds": {"NFiles": nf, "MinFiles": mf, "MaxBatch": mb, "MaxKills": mk,
-                                                  "MaxCycles": mcyc, "DedupModes": ["none", "tags"] + (["shrink"] if nf >= 4 else [])},
+                                                  "MaxCycles": mcyc, "DedupModes": ["none", "tags"] + (["shrink", "clones", "clones_tags"] if nf >= 4 else [])},
                          "distinct": gen.distinct, "generated": gen.generated, "depth": gen.depth,
                          "invariants": ["TypeOK", "DeleteSafeExceptOpen"], "terminal_behaviours": len(gen.traces)})
         cand = []
@@ -110,7 +111,7 @@ def run(ctx):
         cand.sort(key=lambda t: (t[0], t[1], t[2]))
         # the "shrink" class (files with different arc:tags sets): every <=1-kill schedule, the rest only in thorough
         few = [c for c in cand if c[0] <= 1]
-        rest = [c for c in cand if c[0] > 1 and (c[1] != "shrink" or not quick)]
+        rest = [c for c in cand if c[0] > 1 and (c[1] in ("none", "tags") or not quick)]
         if rest:
             off = (ctx.seed * 7919) % len(rest)
             rest = rest[off:] + rest[:off]
@@ -124,6 +125,10 @@ def run(ctx):
                 modes = [modes_dedup[(n + ctx.seed) % 3]] if (quick or label == "large") else modes_dedup
             elif dedup == "shrink":
                 modes = ["tags_evolve"]
+            elif dedup == "clones":
+                modes = ["none_clones"]       # no metadata, rows identical in every column (in one file and across files)
+            elif dedup == "clones_tags":
+                modes = ["tags_clones"]       # control: the same rows with arc:tags, collapse allowed
             else:
                 modes = ["none"]
             for m in modes:
@@ -167,6 +172,14 @@ def run(ctx):
                                                         modes=("shrink",), tag_union=False)})
     if nc2.violated != "ConservedAfterCleanCycle":
         raise InfraError("negative control: 'newest tagged file only' no longer violates ConservedAfterCleanCycle (%s)" % nc2.violated)
+    # negative control 3: SELECT DISTINCT in the metadata-free merge, partition with fully identical rows, no kill
+    nc3 = ctx.tlc("compaction", "Compaction", "MCP_distinct.cfg", timeout=900, workers=2, allow_violation=True,
+                  files={"MCP_distinct.cfg": cfg_text(nf, mf, mb, 0, mcyc, False, "ConservedAfterCleanCycle", True,
+                                                      modes=("clones",), plain_distinct=True)})
+    if nc3.violated != "ConservedAfterCleanCycle":
+        raise InfraError("negative control: a DISTINCT merge of a metadata-free partition with identical rows no longer "
+                         "violates ConservedAfterCleanCycle (%s)" % nc3.violated)
+    ctx.note("negative_control_plain_distinct", {"violated": nc3.violated})
     ctx.note("negative_control_newest_tags_only", {"violated": nc2.violated})
     ctx.note("negative_control_as_written", {"violated": nc.violated, "distinct_until_counterexample": nc.distinct})
     ctx.note("tlc_model_check", mc_notes)
